@@ -43,10 +43,11 @@ Proof. intros pc. simpl. split; [done|left; done]. Qed.
 
 Lemma step_inv p x : PInv p -> PInv (step p x).
 Proof.
-  intros I. destruct x as [a ok now|c|c sh|now| |]; simpl.
+  intros I. destruct x as [a ok now|c|c sh|c|now| |]; simpl.
   - by apply get_conn_inv.
   - apply PInv_upd_conn; [done|]. apply (benign_busy (fun pc => S (pc_busy pc))).
   - destruct sh; [apply PInv_upd_conn; [|apply benign_kill]|]; (apply PInv_upd_conn; [done|apply benign_callend]).
+  - apply PInv_upd_conn; [done|]. apply (benign_busy (fun pc => (pc_busy pc - 1)%nat)).
   - by apply tick_inv.
   - by apply close_idle_inv.
   - by apply close_transport_inv.
@@ -154,7 +155,7 @@ Proof. intros ->. exists []. rewrite app_nil_r. split; [done|set_solver]. Qed.
 Lemma step_dead p x c : PInv p -> dead p c ->
   dead (step p x) c /\ exists l, p_out (step p x) = p_out p ++ l /\ Some c ∉ l.
 Proof.
-  intros I (pc & E & A). destruct x as [a ok now|c'|c' sh|now| |]; simpl.
+  intros I (pc & E & A). destruct x as [a ok now|c'|c' sh|c'|now| |]; simpl.
   - destruct (get_conn_old p a ok now c pc I E) as (pc1 & E1 & _ & A1 & _).
     split; [exists pc1; split; [done|congruence]|].
     destruct (get_conn_out p a ok now I) as (o & Eo & Ho). exists [o]. split; [done|].
@@ -166,6 +167,8 @@ Proof.
       * eexists. split; [apply lookup_upd_conn_fwd; by apply lookup_upd_conn_fwd|]. repeat case_decide; done.
       * eexists. split; [by apply lookup_upd_conn_fwd|]. case_decide; done.
     + apply out_nil. destruct sh; by rewrite ?upd_conn_out.
+  - split; [|apply out_nil; by rewrite upd_conn_out].
+    eexists. split; [by apply lookup_upd_conn_fwd|]. case_decide; done.
   - destruct (tick_facts now p I) as [H _]. split.
     + apply (dead_hk (set_now now p)); [done|]. exists pc. done.
     + apply out_nil. destruct H as (M & _). by rewrite (meta_out _ _ M).
@@ -237,6 +240,15 @@ Proof.
   intros I%reachable_inv [[now ->]| ->] B O; simpl.
   - destruct (tick_facts now p I) as [H _]. rewrite (hk_open_busy _ _ c H); done.
   - rewrite (hk_open_busy _ _ c (close_idle_hk p)); done.
+Qed.
+
+(* closing a stream changes nothing but the occupancy count of its connection *)
+Lemma stream_end_only_busy c p : let p' := step p (StreamEnd c) in
+  p_active p' = p_active p /\ p_idle p' = p_idle p /\ p_closed p' = p_closed p /\
+  (forall c' pc, c' <> c -> p_conns p' !! c' = Some pc <-> p_conns p !! c' = Some pc).
+Proof.
+  simpl. autorewrite with pool. split_and!; try done.
+  intros c' pc N. by rewrite lookup_alter_ne.
 Qed.
 
 Lemma rcond_true p now c : busy_of p c = 0%nat -> last_of p c + p_keepalive p < now -> rcond p now c = true.
@@ -336,6 +348,7 @@ Print Assumptions getconn_dial_ok.
 Print Assumptions dead_never_handed_out.
 Print Assumptions failure_consumes_connection.
 Print Assumptions spares_busy.
+Print Assumptions stream_end_only_busy.
 Print Assumptions tick_retires.
 Print Assumptions tick_closes_idle.
 Print Assumptions close_closes_all.
